@@ -17,6 +17,7 @@ import (
 	"strconv"
 	"strings"
 	"sync"
+	"sync/atomic"
 	"time"
 )
 
@@ -150,6 +151,23 @@ type Worker struct {
 	Scratch string // private scratch directory (removed by the parent)
 	Verbose bool
 	State   any
+	// progress: unix nanoseconds of the last sign of life of the running case (see Progress)
+	progress atomic.Int64
+}
+
+// Progress is called by a check from inside a long case (one call per schedule, per step ...): the case watchdog measures
+// the time since the last call, not since the start of the case, so that it tells a case that does not move from one
+// that is merely long on a loaded machine.
+func (w *Worker) Progress() { w.progress.Store(time.Now().UnixNano()) }
+
+// currentWorker: a worker process runs one worker.
+var currentWorker atomic.Pointer[Worker]
+
+// Progress reports a sign of life of the running case from code that has no Worker at hand.
+func Progress() {
+	if w := currentWorker.Load(); w != nil {
+		w.Progress()
+	}
 }
 
 type Aggregate struct {
@@ -202,6 +220,7 @@ func RunWorker(c Check, tier string, seed uint64, from, to, stride int, outPath,
 	}
 	defer out.Close()
 	w := &Worker{Tier: tier, Seed: seed, Scratch: scratch}
+	currentWorker.Store(w)
 	if err := c.Setup(w); err != nil {
 		fmt.Fprintln(os.Stderr, "worker setup: ", err)
 		return 2
@@ -223,15 +242,27 @@ func RunWorker(c Check, tier string, seed uint64, from, to, stride int, outPath,
 			runCaseRecover(c, w, i, cs, res)
 			close(finished)
 		}()
-		select {
-		case <-finished:
-			enc(res)
-		case <-time.After(limit):
-			// the case does not end (e.g. code under test spinning, a Stop() that waits for it): record it and give
+		w.Progress()
+		stuck := false
+	wait:
+		for {
+			select {
+			case <-finished:
+				enc(res)
+				break wait
+			case <-time.After(limit / 10):
+				if time.Since(time.Unix(0, w.progress.Load())) > limit {
+					stuck = true
+					break wait
+				}
+			}
+		}
+		if stuck {
+			// the case does not move (e.g. code under test spinning, a Stop() that waits for it): record it and give
 			// the rest of the list to a new worker process; a goroutine cannot be killed
 			buf := make([]byte, 1<<18)
 			n := runtime.Stack(buf, true)
-			fmt.Fprintf(os.Stderr, "CASE-WATCHDOG case %d did not end within %v\n%s\n", i, limit, buf[:n])
+			fmt.Fprintf(os.Stderr, "CASE-WATCHDOG case %d did not end and showed no progress for %v\n%s\n", i, limit, buf[:n])
 			return 3
 		}
 	}
